@@ -224,9 +224,14 @@ impl WTClient {
             // DISCUSS: It may be nice to independently compute the slots and compare
             tower.available_slots = available_slots;
 
-            self.dbm
+            // The same commitment revocation may be notified more than once (e.g. after a restart of the
+            // node), in which case the data is already there. Don't panic on that, the state is being held.
+            if let Err(e) = self
+                .dbm
                 .store_appointment_receipt(tower_id, locator, available_slots, receipt)
-                .unwrap();
+            {
+                log::warn!("Appointment receipt for {locator} could not be stored (tower_id: {tower_id}): {e}");
+            }
         } else {
             log::error!("Cannot add appointment receipt to tower. Unknown tower_id: {tower_id}");
         }
@@ -246,9 +251,12 @@ impl WTClient {
         if let Some(tower) = self.towers.get_mut(&tower_id) {
             tower.pending_appointments.insert(appointment.locator);
 
-            self.dbm
-                .store_pending_appointment(tower_id, appointment)
-                .unwrap();
+            if let Err(e) = self.dbm.store_pending_appointment(tower_id, appointment) {
+                log::warn!(
+                    "Pending appointment {} could not be stored (tower_id: {tower_id}): {e}",
+                    appointment.locator
+                );
+            }
         } else {
             log::error!("Cannot add pending appointment to tower. Unknown tower_id: {tower_id}");
         }
@@ -272,9 +280,12 @@ impl WTClient {
         if let Some(tower) = self.towers.get_mut(&tower_id) {
             tower.invalid_appointments.insert(appointment.locator);
 
-            self.dbm
-                .store_invalid_appointment(tower_id, appointment)
-                .unwrap();
+            if let Err(e) = self.dbm.store_invalid_appointment(tower_id, appointment) {
+                log::warn!(
+                    "Invalid appointment {} could not be stored (tower_id: {tower_id}): {e}",
+                    appointment.locator
+                );
+            }
         } else {
             log::error!("Cannot add invalid appointment to tower. Unknown tower_id: {tower_id}");
         }
